@@ -306,6 +306,8 @@ def db(x):
         raise TypeError('The input value must be a number, list, tuple or ndarray.')
     
     x = np.array(x)
+    if x.dtype.kind in 'biu': # integer samples: numpy takes the logarithm of an 8/16-bit integer array in half/single precision
+        x = x.astype(float)
     
     if (x<0).any():
         raise ValueError('Some values of input array are negative.')
